@@ -93,3 +93,65 @@ Proof.
     rewrite (E4 i Hi), (E3 i Hi), (E2 i Hi), (E1 i Hi). lia.
 Qed.
 End ChainTime.
+
+(* The same with states instead of clocks: the uncoupled chain.  Every site i carries a state of some type S
+   and a one-parameter family U i t of maps on it (t in eighths of a time step) with the semigroup law
+   U i (a + b) = U i b . U i a  (the single-site propagators exp(t L_i): expm's contract, a section hypothesis).
+   The gate of the uncoupled chain on bond l applies U l (weight * frac) to site l and U (l+1) (weight * frac) to
+   site l+1.  After one TEBD step every site i is in the state U i 8 (one full time step of its own dynamics),
+   for every chain length >= 2, both Trotter orders, every family U and every initial product state. *)
+Section Uncoupled.
+Variables (St B : Type) (ds : St) (db : B) (n : nat).
+Variable U : nat -> nat -> St -> St.
+Hypothesis U_add : forall i a b s, U i (a + b) s = U i b (U i a s).
+Hypothesis U_zero : forall i s, U i 0 s = s.
+
+Definition prod_gate (frac : nat) (l : nat) (_ : B) (gl : St) (lam : B) (gr : St) (_ : B) : St * B * St :=
+  (U l (weight2 n l l * frac) gl, lam, U (S l) (weight2 n l (S l) * frac) gr).
+Definition prod_layer (frac : nat) (s : Chain.cstate St B) (ls : list nat) : Chain.cstate St B :=
+  apply_layer_seq St B (prod_gate frac) ds db s ls.
+Definition prod_step (order : nat) (s : Chain.cstate St B) : Chain.cstate St B :=
+  fold_left (prod_layer (gate_fraction order)) (layers n order) s.
+
+(* simulation by the clock chain: site i of the product chain is U i (clock i) of its initial state *)
+Definition sim (init : list St) (c : Chain.cstate nat B) (s : Chain.cstate St B) : Prop :=
+  length (fst c) = n /\ length (fst s) = n /\ snd c = snd s /\
+  forall i, i < n -> nth i (fst s) ds = U i (nth i (fst c) 0) (nth i init ds).
+
+Lemma sim_gate init frac l c s : S l < n -> sim init c s ->
+  sim init (apply_gate nat B (clock_gate B n frac) 0 db c l) (apply_gate St B (prod_gate frac) ds db s l).
+Proof.
+  intros Hl (Hc & Hs & Hlam & Hst). unfold sim, apply_gate, write, gate_result, clock_gate, prod_gate. cbn [fst snd].
+  rewrite !upd_len. repeat split; try assumption.
+  - rewrite Hlam. reflexivity.
+  - intros i Hi. destruct (Nat.eq_dec i (S l)) as [->|H2].
+    + rewrite !nth_upd_same by (rewrite upd_len; lia). rewrite U_add. rewrite <- Hst by lia. reflexivity.
+    + rewrite !(nth_upd_other (S l) i) by lia. destruct (Nat.eq_dec i l) as [->|H1].
+      * rewrite !nth_upd_same by lia. rewrite U_add. rewrite <- Hst by lia. reflexivity.
+      * rewrite !(nth_upd_other l i) by lia. apply Hst. exact Hi.
+Qed.
+
+Lemma sim_layer init frac ls : (forall b, In b ls -> S b < n) -> forall c s, sim init c s ->
+  sim init (layer B db n frac c ls) (prod_layer frac s ls).
+Proof.
+  induction ls as [|l ls IH]; intros Hb c s H; [exact H|].
+  unfold layer, prod_layer, apply_layer_seq. cbn [fold_left].
+  apply (IH (fun b Hb' => Hb b (or_intror Hb'))). apply sim_gate; [apply Hb; left; reflexivity|exact H].
+Qed.
+
+Theorem uncoupled_factorises order (s : Chain.cstate St B) : 2 <= n -> (order = 1 \/ order = 2) -> length (fst s) = n ->
+  forall i, i < n -> nth i (fst (prod_step order s)) ds = U i 8 (nth i (fst s) ds).
+Proof.
+  intros Hn Ho Hlen i Hi.
+  set (c0 := (repeat 0 n, snd s) : Chain.cstate nat B).
+  assert (H0 : sim (fst s) c0 s).
+  { unfold sim, c0. cbn [fst snd]. rewrite repeat_length. repeat split; try assumption; try reflexivity.
+    intros j Hj. rewrite nth_repeat. rewrite U_zero. reflexivity. }
+  assert (Hstep : sim (fst s) (tebd_step B db n order c0) (prod_step order s)).
+  { unfold tebd_step, prod_step. destruct Ho as [-> | ->]; cbn [layers gate_fraction fold_left];
+      repeat (apply sim_layer; [first [exact (evens_ok n) | exact (odds_ok n)]|]); exact H0. }
+  destruct Hstep as (_ & _ & _ & Hst). rewrite (Hst i Hi).
+  rewrite (one_time_step_per_site B db n order c0 Hn Ho) by (unfold c0; cbn [fst]; try apply repeat_length; exact Hi).
+  unfold c0. cbn [fst]. rewrite nth_repeat. reflexivity.
+Qed.
+End Uncoupled.
